@@ -35,7 +35,7 @@ def features(t, env, out=None, inline=False, seen=None, tagdefault=None):
         if c is not None and c["lo"] is not None and c["hi"] is None and c["lo"] != 0: out.add("semi_nonzero_lb")
     c_ = t.get("cons") if k == "INTEGER" else t.get("size")
     if c_ is not None and (c_["lo"] in (0, None)) and c_["hi"] is None and (k == "INTEGER" or k in ("OCTET STRING", "BIT STRING", "SEQUENCE OF", "SET OF") or k in genmod.STRING_KINDS):
-        out.add("selfloop_constraint")     # F48: generated checker tail-calls itself (vacuous constraint)
+        out.add("selfloop_constraint")     # vacuous constraint: the generated checker falls back to the underlying type (F48, fixed: it called itself)
     if k == "NumericString" and not inline and not t.get("size") and not t.get("alpha"):
         out.add("named_plain_numeric")
     if k == "PrintableString" and inline and not t.get("size") and not t.get("alpha"):
